@@ -1,5 +1,6 @@
 import CTV.Model.ChainStore
 import CTV.Lemmas.ChainStore
+import CTV.Lemmas.ChainDer
 /-!
 # C14 — Storing issuance chains outside the backend is invisible to readers
 
@@ -95,6 +96,23 @@ theorem fix_inverts_build (H : Bytes → Bytes) (get : Bytes → Except Err Byte
     simp only [Bool.false_eq_true, if_false] at hi hd
     rw [decPCEH_encCCH _ ix hi, decCCH_encCCH _ ix hi]
     simp only [hinf, hd]
+
+/-- **DER round trip of `SEQUENCE OF SEQUENCE { OCTET STRING }`**: the stored form of every chain decodes to that
+chain (Go's `encoding/asn1` length rules: definite, minimal, at most 4 length bytes, below 2^31). -/
+theorem der_round_trip (chain : List Bytes) (h : (derChain chain).length < 2147483648) :
+    parseDerChain (derChain chain) = some chain :=
+  CTV.Model.ChainStore.der_round_trip chain h
+
+/-- `fix_inverts_build` with the DER hypothesis discharged. -/
+theorem fix_inverts_build_der (H : Bytes → Bytes) (get : Bytes → Except Err Bytes) (isPrecert : Bool) (cert : Bytes) (chain : List Bytes)
+    (ix dx : Bytes)
+    (hH : (H (derChain chain)).length ≠ 0)
+    (hget : get (H (derChain chain)) = .ok (derChain chain))
+    (hsz : (derChain chain).length < 2147483648)
+    (hi : buildIndirect H isPrecert cert chain = some ix)
+    (hd : buildDirect isPrecert cert chain = some dx) :
+    fixLogLeaf get ix = .ok dx :=
+  fix_inverts_build H get isPrecert cert chain ix dx hH hget (der_round_trip chain hsz) hi hd
 
 /-! ## the cache never changes what is served -/
 
